@@ -151,19 +151,27 @@ theorem proc_silent_of_not_respond (gen : C03.Gen) (v : C03.Srv) (r : Req) (sub 
     procSotw gen v r = some { srv := { v with st := s' }, sent := [], calls := [] } := by
   simp [procSotw, h]
 
-/-- A NACK is never answered: nothing is sent, no generator runs, only `LastError` changes. -/
-theorem proc_nack_silent (gen : C03.Gen) (v : C03.Srv) (r : Req) (msg : String) (herr : r.err = some msg) :
-    procSotw gen v r = some { srv := { v with st := match v.st r.ty with
-        | none => v.st
-        | some w => v.st.set r.ty (some { w with lastError := msg }) }, sent := [], calls := [] } :=
-  proc_silent_of_not_respond gen v r [] _ (nack_silent v.st r msg herr)
+/-- A NACK for a watched type is never answered: nothing is sent, no generator runs, only `LastError` changes. -/
+theorem proc_nack_silent (gen : C03.Gen) (v : C03.Srv) (r : Req) (msg : String) (w : WR) (herr : r.err = some msg)
+    (hw : v.st r.ty = some w) :
+    procSotw gen v r = some { srv := { v with st := v.st.set r.ty (some { w with lastError := msg }) },
+                              sent := [], calls := [] } :=
+  proc_silent_of_not_respond gen v r [] _ (nack_silent v.st r msg w herr hw)
 
-/-- A request echoing a nonce that is not the last one recorded is dropped. -/
+/-- A request with `error_detail` for a type that is not watched on the stream is the first request of the type:
+    the handler does exactly what it does for the same request without `error_detail`. -/
+theorem proc_nack_unwatched_is_first_request (gen : C03.Gen) (v : C03.Srv) (r : Req) (msg : String)
+    (herr : r.err = some msg) (hnone : v.st r.ty = none) : procSotw gen v r = procSotw gen v r.clean := by
+  unfold procSotw
+  rw [nack_unwatched_is_first_request v.st r msg herr hnone]
+  rfl
+
+/-- A request echoing a nonce that is not the last one recorded - on a watch something was sent on - is dropped. -/
 theorem proc_stale_silent (gen : C03.Gen) (v : C03.Srv) (r : Req) (prev : WR)
     (herr : r.err = none) (hsub : r.unsub = false) (hprev : v.st r.ty = some prev)
-    (hn : r.nonce ≠ "") (hstale : r.nonce ≠ prev.nonceSent) :
+    (hn : r.nonce ≠ "") (hsent : prev.nonceSent ≠ "") (hstale : r.nonce ≠ prev.nonceSent) :
     procSotw gen v r = some { srv := v, sent := [], calls := [] } :=
-  proc_silent_of_not_respond gen v r [] _ (stale_nonce_silent v.st r prev herr hsub hprev hn hstale)
+  proc_silent_of_not_respond gen v r [] _ (stale_nonce_silent v.st r prev herr hsub hprev hn hsent hstale)
 
 /-- An unsubscribe deletes the watch and is not answered. -/
 theorem proc_unsubscribe_silent (gen : C03.Gen) (v : C03.Srv) (r : Req)
@@ -224,6 +232,25 @@ theorem proc_first_request_generates_all (gen : C03.Gen) (v : C03.Srv) (r : Req)
   injection ho with ho
   subst ho
   split <;> simp [C03.narrowedSotw]
+
+/-- **A request for a watch nothing was sent on yet** (the previous answer had nothing to send) is generated for
+    the whole requested set, whatever nonce it echoes. -/
+theorem proc_unsent_watch_generates_all (gen : C03.Gen) (v : C03.Srv) (r : Req) (prev : WR) (o : POut)
+    (herr : r.err = none) (hsub : r.unsub = false) (hprev : v.st r.ty = some prev) (hsent : prev.nonceSent = "")
+    (ho : procSotw gen v r = some o) :
+    o.calls = [(r.ty, r.names)] ∧ ∃ w, o.srv.st r.ty = some w ∧ w.names = r.names := by
+  have h := unsent_watch_request_responds v.st r prev herr hsub hprev hsent
+  rw [proc_respond_form gen v r [] _ h] at ho
+  injection ho with ho
+  subst ho
+  split
+  · exact ⟨by simp [C03.narrowedSotw], _, newWatched_self _ _ _, rfl⟩
+  · refine ⟨by simp [C03.narrowedSotw], ?_⟩
+    obtain ⟨w, hw, _⟩ := send_ok_records_nonce (newWatched v.st r.ty r.names) r.ty (C03.freshNonce v)
+      (by simp [C03.freshNonce])
+    refine ⟨w, hw, ?_⟩
+    simp [send, C03.freshNonce, newWatched_self] at hw
+    rw [← hw]
 
 /-- **Narrowing**: a request with the current nonce that adds names (no warming response pending) makes
     the generator produce exactly the newly subscribed names - not the names already delivered. -/
@@ -298,13 +325,12 @@ theorem dproc_silent_of_not_respond (gen : C03.Gen) (v : C03.Srv) (r : DReq) (s'
     procDelta gen v r = some { srv := { v with st := s' }, sent := [], calls := [] } := by
   simp [procDelta, h]
 
-/-- A delta NACK without a subscription change: nothing sent, no generator call. -/
-theorem dproc_nack_silent (gen : C03.Gen) (v : C03.Srv) (r : DReq) (msg : String)
-    (herr : r.err = some msg) (hc : r.carries = false) :
-    procDelta gen v r = some { srv := { v with st := match v.st r.ty with
-        | none => v.st
-        | some w => v.st.set r.ty (some { w with lastError := msg }) }, sent := [], calls := [] } :=
-  dproc_silent_of_not_respond gen v r _ (delta_nack_silent v.st r msg herr hc)
+/-- A delta NACK for a watched type without a subscription change: nothing sent, no generator call. -/
+theorem dproc_nack_silent (gen : C03.Gen) (v : C03.Srv) (r : DReq) (msg : String) (w : WR)
+    (herr : r.err = some msg) (hw : v.st r.ty = some w) (hc : r.carries = false) :
+    procDelta gen v r = some { srv := { v with st := v.st.set r.ty (some { w with lastError := msg }) },
+                               sent := [], calls := [] } :=
+  dproc_silent_of_not_respond gen v r _ (delta_nack_silent v.st r msg w herr hw hc)
 
 /-- A stale delta ACK without a subscription change: dropped. -/
 theorem dproc_stale_silent (gen : C03.Gen) (v : C03.Srv) (r : DReq) (prev : WR)
